@@ -529,6 +529,11 @@ class C19Run(qsrun.QsRun):
         k = self._readd_candidate() if self._bias(0.5) else None
         if k is not None:
             return {"channel": k.channel, "jobid": k.jobid, "timeout": rng.choice([60, 1200])}
+        if rng.random() < 0.3:
+            # (a client of the queue other than nserve, asking for a time-to-live of its own)
+            kind = rng.choice(["makezip", f"render-{rng.choice(c['writers'])}"])
+            return {"channel": kind.split("-")[0], "jobid": f"{cid}:{kind}", "timeout": rng.choice([60, 1200]),
+                    "ttl": rng.choice([3600, 600])}
         if rng.random() < 0.5:
             return {"channel": "makezip", "jobid": f"{cid}:makezip", "timeout": rng.choice([60, 1200])}
         return {"channel": "render", "jobid": f"{cid}:render-{rng.choice(c['writers'])}", "timeout": rng.choice([60, 1200])}
